@@ -70,6 +70,22 @@ fn c02_grid(tier: Tier) -> Vec<Program> {
             }
         }
     }
+    // many generations of one key (buckets of hundreds of records), read back after each write
+    for variant in 0..2usize {
+        let n = 140 + variant * 150;
+        let steps: Vec<Step> = (0..n)
+            .map(|i| {
+                let mut s = WriteSpec::simple(Some(0), i % 3);
+                if i % 5 == variant {
+                    s.entry = WEntry::Opts;
+                    s.chunks = vec![1, 2];
+                    s.metadata = Some(json!({"gen": i}));
+                }
+                Step { op: Op::Write(s), fl: if (i / 2 + variant) % 2 == 0 { Fl::Sync } else { Fl::Async } }
+            })
+            .collect();
+        out.push(Program { keys: vec![format!("generations-{variant}"), "idle".into()], blobs: vec![Blob::new(3, 1), Blob::new(4, 2), Blob::new(5, 3)], steps });
+    }
     // the SHA-256-only entry points
     for &len in &lens {
         for fl in [Fl::Sync, Fl::Async] {
